@@ -3,6 +3,7 @@ import MtblProofs.TpLive
 import MtblProofs.PoolWriterProofs
 import MtblProofs.PoolSorterProofs
 import MtblProofs.TpShareProofs
+import MtblProofs.TpKShape
 import MtblProofs.OwnerProofs
 /-
   C13 — Pooled writers and sorters: same result under every interleaving, no hangs.
@@ -144,9 +145,9 @@ end Mtbl.C13
   what they share is `threadpool_next` (take an idle thread, create one below the maximum, or sleep on `pool->c`) and the
   return-to-pool step of every result handler (push, signal `pool->c`).  `TpShare` models exactly that for ANY number of
   callers and handlers, with every choice `pthread_cond_signal` may make and spurious wake-ups.  What a thread does while
-  held is the single-client protocol above.  These theorems are NOT a proof of `C14_norace_shared` (no k-client machine);
-  they are the pool-level facts such a proof would start from, and they are tied to the code by the regenerated signal-site
-  table and by the `tpmulti` family (threadpool.c under the deterministic scheduler with 2–4 clients). -/
+  held is the single-client protocol above.  They are tied to the code by the regenerated signal-site table; the same facts
+  are proved below (`TpK.C13`) for the k-client MACHINE, which runs in lockstep with threadpool.c under the deterministic
+  scheduler (`tpmulti` family, 1–4 clients). -/
 namespace TpShare.C13
 
 /-- for any number of callers: never more worker threads than the maximum, and every thread accounted for -/
@@ -177,3 +178,58 @@ theorem C13_lazy_signal_witness :
     s.idle = [0] ∧ s.asleep = [(1, false)] := lazy_signal_loses_a_wakeup
 
 end TpShare.C13
+
+/-! ### the k-client machine (`MtblModel/TpK.lean`): owner, any number of clients with their handlers, shared workers
+
+  Same granularity as the one-client machine; replayed turn by turn against mtbl/threadpool.c under the deterministic scheduler
+  with several client threads on one pool (`tpmulti` family: pool, every worker's mailbox, every client's queue, counter, flag
+  and deliveries, enabled and sleeping sets compared after every turn).  For EVERY number of clients, pool size, job count,
+  delivery mode and schedule (spurious wake-ups and the choice of the sleeper a signal wakes included): -/
+namespace TpK.C13
+
+/-- the pool never runs more worker threads than its maximum, however many clients share it -/
+theorem C13_kclient_bound {n max njobs : Nat} {o : Bool} {s : St} (hr : Reachable n max njobs o s) : s.count ≤ s.max :=
+  bound_reachable hr
+
+/-- exclusive hand-out: every worker thread is in at most one place — the idle list, the owner's hands, one client's hands
+    (caller, result queue or handler), or its own (an unordered job not yet queued) — and threads not yet created are nowhere -/
+theorem C13_kclient_exclusive {n max njobs : Nat} {o : Bool} {s : St} (hr : Reachable n max njobs o s) :
+    (∀ t, occ s t ≤ 1) ∧ (∀ t, s.thr.size ≤ t → occ s t = 0) :=
+  ⟨(excl_reachable hr).le1, (excl_reachable hr).fresh⟩
+
+/-- … so no worker is held by two clients at once, … -/
+theorem C13_kclient_one_holder {n max njobs : Nat} {o : Bool} {s : St} (hr : Reachable n max njobs o s)
+    {c1 c2 t : Nat} (h1 : c1 < s.cl.size) (h2 : c2 < s.cl.size) (hne : c1 ≠ c2)
+    (m1 : t ∈ clView s.ordered s.cl[c1]!) : t ∉ clView s.ordered s.cl[c2]! :=
+  (excl_reachable hr).two_clients h1 h2 hne m1
+
+/-- … a thread a client holds is not idle, not being destroyed, exists, and is held exactly once (not both queued and in
+    the handler's hands, not twice in the queue), … -/
+theorem C13_kclient_held {n max njobs : Nat} {o : Bool} {s : St} (hr : Reachable n max njobs o s)
+    {c t : Nat} (hc : c < s.cl.size) (m : t ∈ clView s.ordered s.cl[c]!) :
+    t ∉ s.idle ∧ t ∉ oHand s.opc ∧ (clView s.ordered s.cl[c]!).count t = 1 ∧ t < s.thr.size ∧ wN s.thr[t]! = 0 :=
+  (excl_reachable hr).client_holds hc m
+
+/-- … and an idle thread is in the list once and in nobody's hands -/
+theorem C13_kclient_idle {n max njobs : Nat} {o : Bool} {s : St} (hr : Reachable n max njobs o s) {t : Nat} (m : t ∈ s.idle) :
+    s.idle.count t = 1 ∧ t ∉ oHand s.opc ∧ (∀ c, c < s.cl.size → t ∉ clView s.ordered s.cl[c]!) ∧ wN s.thr[t]! = 0 ∧
+      t < s.thr.size :=
+  (excl_reachable hr).idle_free m
+
+/-- the hand-over protocol: the record of a worker thread has the shape its place requires — idle, in a caller's hands
+    before the hand-over, or just returned by a handler: asleep or about to sleep at the loop head, no job, no result;
+    handed over in order: working on the job, finished and about to say so, or done with the result in place; queued by
+    itself or waited for (unordered): done with the result in place; told to exit: running with no job -/
+theorem C13_kclient_protocol {n max njobs : Nat} {o : Bool} {s : St} (hr : Reachable n max njobs o s) (t : Nat) :
+    Good s.ordered s.idle s.opc s.cl t s.thr[t]! := (inv_reachable hr).2 t
+
+/-- non-vacuity: a reachable state with two clients each holding a worker (the owner starts both clients; each creates its
+    handler, takes a worker slot below the maximum and creates the worker) -/
+def exSched : List Lbl :=
+  [.run .owner 0, .run .owner 0, .run (.client 0) 0, .run (.client 0) 0, .run (.client 0) 0, .run (.client 0) 0,
+   .run (.client 1) 0, .run (.client 1) 0, .run (.client 1) 0, .run (.client 1) 0]
+def exState : St := exSched.foldl (fun s l => (step s l).getD s) (init 2 2 1 true)
+example : exState.count = 2 ∧ (exState.cl.toList.map (·.pc)) = [CPc.assign 0, CPc.assign 1] ∧ occ exState 0 = 1 ∧
+    occ exState 1 = 1 := by decide
+
+end TpK.C13
